@@ -174,7 +174,7 @@ fn main() {
                     let conc = 1 + (seed as usize + n) % 3;
                     // full traces for small sizes: the regular property clauses apply
                     if n <= full_upto {
-                        let opts = Opts { abort: false, misuse: false, steps: false, max_states: 1000000, single: true, paths: 0, seed };
+                        let opts = Opts { abort: false, misuse: false, steps: false, max_states: 1000000, single: true, paths: 0, seed, reconsider: false };
                         let mut ex = Map::new();
                         ex.insert("fam".into(), json!(format!("big:{}:{}", jb.family, jb.pattern)));
                         let links = Links { pathkey: String::new(), exact: None, faultfree: true };
